@@ -474,6 +474,14 @@ func runC08(c *Ctx) {
 			return out
 		}
 		seen := map[string]bool{}
+		outcomes := map[string]bool{}
+		defer func() {
+			// all three answers exist: a test that can never hold (len(payload) >= 0) makes one of them unreachable
+			// without any reply being "wrong" for the conditions that remain
+			for _, o := range []string{"echo/echo", "1000/1000", "1002/1002"} {
+				c.check(outcomes[o], fn, "close reply exists "+strings.Split(o, "/")[0], fn.Pos(), "some path answers with "+strings.Split(o, "/")[0], "no path of the close handling answers a peer Close with "+strings.Split(o, "/")[0]+" (valid payload echoed / empty payload 1000 / malformed payload 1002): one of the three cases of RFC 6455 section 7 is never taken")
+			}
+		}()
 		for _, path := range paths {
 			if path.Panics {
 				continue
@@ -505,6 +513,7 @@ func runC08(c *Ctx) {
 					return
 				}
 				seen[cond] = true
+				outcomes[want+"/"+got] = true
 				c.check(got == want, fn, "close reply ["+cond+"]", pos, "replies "+got, fmt.Sprintf("a peer Close with %s is answered with %s, RFC 6455 requires %s", cond, got, want))
 			}
 			switch {
